@@ -25,4 +25,421 @@ theorem outcome_fail_list (list : Tri) (d : Bool) (path src res dt : Bytes) (reg
     simp only [h, ne_eq, not_false_eq_true, ↓reduceIte, h']
     cases list <;> cases d <;> simp at hl ⊢
 
+theorem outcome_errLine_nowrite (list : Tri) (d : Bool) (path src res dt : Bytes) (reg : Bool) :
+    (outcome list false d path src res dt reg).errLine = none := by
+  unfold outcome
+  by_cases h : src = res
+  · subst h; simp; split <;> simp
+  · simp only [h, ne_eq, not_false_eq_true, ↓reduceIte]
+    cases list <;> cases d <;> simp
+
+theorem outcome_same (list : Tri) (w d : Bool) (path src dt : Bytes) (reg : Bool) :
+    (outcome list w d path src src dt reg).listed = false := by
+  unfold outcome; simp; split <;> simp
+
+theorem outcome_write (list : Tri) (w d : Bool) (path src res dt : Bytes) (reg : Bool) (r : Bytes)
+    (h : (outcome list w d path src res dt reg).write = some r) : r = res ∧ src ≠ res ∧ w = true := by
+  unfold outcome at h
+  by_cases hs : src = res
+  · subst hs; simp at h; split at h <;> simp at h
+  · simp only [hs, ne_eq, not_false_eq_true, ↓reduceIte] at h
+    cases list <;> cases w <;> cases d <;> cases reg <;> simp_all
+
+theorem outcome_diffed (list : Tri) (w : Bool) (path src res dt : Bytes) (reg : Bool) :
+    (outcome list w true path src res dt reg).diffed = true ↔ (res ≠ src ∧ ¬ (w = true ∧ reg = false)) := by
+  unfold outcome
+  by_cases h : src = res
+  · subst h; simp
+  · have h' : res ≠ src := fun e => h e.symm
+    simp only [h, ne_eq, not_false_eq_true, ↓reduceIte, h', true_and]
+    cases list <;> cases w <;> cases reg <;> simp
+
+theorem outcome_diff_stdout (list : Tri) (w : Bool) (path src res dt : Bytes) (reg : Bool)
+    (h : (outcome list w true path src res dt reg).diffed = true) :
+    (outcome list w true path src res dt reg).stdout = listLine list path ++ dt := by
+  have h2 := (outcome_diffed list w path src res dt reg).mp h
+  obtain ⟨h3, h4⟩ := h2
+  have hs : src ≠ res := fun e => h3 e.symm
+  unfold outcome
+  simp only [hs, ne_eq, not_false_eq_true, ↓reduceIte]
+  cases w <;> cases reg <;> simp_all
+
+theorem outcome_nodiff (list : Tri) (w : Bool) (path src res dt : Bytes) (reg : Bool) :
+    (outcome list w false path src res dt reg).diffed = false := by
+  unfold outcome
+  by_cases h : src = res
+  · subst h; simp; split <;> simp
+  · simp only [h, ne_eq, not_false_eq_true, ↓reduceIte]
+    cases list <;> cases w <;> cases reg <;> simp
+
+/-! ## formatBytes / formatPath under `-l` without `-w` -/
+
+theorem formatBytes_fail_iff (F : Fmt) (D : Dif) (f : Flags) (e : Entry) (path src : Bytes) (l : Lang)
+    (hl : f.list ≠ .off) (hw : f.write = false) :
+    (formatBytes F D f e path src l).fail = true ↔
+      ((formatBytes F D f e path src l).listed = true ∨ (formatBytes F D f e path src l).errLine.isSome = true) := by
+  unfold formatBytes
+  cases resolveOpts f e l with
+  | none => simp
+  | some ob =>
+    obtain ⟨o, fromEC⟩ := ob
+    simp only
+    cases F o path src with
+    | unknown => simp
+    | err m => simp
+    | langErr m => simp
+    | ok res =>
+      simp only [hw]
+      rw [outcome_fail_list _ _ _ _ _ _ _ hl, outcome_listed, outcome_errLine_nowrite]
+      simp [hl]
+
+theorem formatPath_fail_iff (F : Fmt) (D : Dif) (f : Flags) (e : Entry) (cs : Bool)
+    (hl : f.list ≠ .off) (hw : f.write = false) :
+    (formatPath F D f e cs).fail = true ↔
+      ((formatPath F D f e cs).listed = true ∨ (formatPath F D f e cs).errLine.isSome = true) := by
+  unfold formatPath
+  simp only
+  split
+  · simp
+  · split
+    · simp
+    · split
+      · simp
+      · simp
+      · exact formatBytes_fail_iff F D f e _ _ _ hl hw
+
+/-! ## the walk -/
+
+theorem visit_fail_iff (F : Fmt) (D : Dif) (f : Flags) (e : Entry)
+    (hl : f.list ≠ .off) (hw : f.write = false) :
+    visitFails (visit F D f e) = true ↔
+      (listedV (visit F D f e) = true ∨ errorV (visit F D f e) = true) := by
+  unfold visit
+  cases visitDecision f e with
+  | format cs => simpa [visitFails, listedV, errorV] using formatPath_fail_iff F D f e cs hl hw
+  | skip => simp [visitFails, listedV, errorV]
+  | skipDir => simp [visitFails, listedV, errorV]
+  | error m => simp [visitFails, listedV, errorV]
+  | panic => simp [visitFails, listedV, errorV]
+
+theorem visits_mem (F : Fmt) (D : Dif) (f : Flags) (es : List Entry) (sk : Option Bytes)
+    (e : Entry) (v : Visit) (h : (e, v) ∈ visits F D f es sk) : v = visit F D f e := by
+  induction es generalizing sk with
+  | nil => simp [visits] at h
+  | cons x rest ih =>
+    unfold visits at h
+    simp only at h
+    split at h
+    · split at h
+      · exact ih _ h
+      · rcases List.mem_cons.mp h with h1 | h1
+        · cases h1; rfl
+        · exact ih _ h1
+    · rcases List.mem_cons.mp h with h1 | h1
+      · cases h1; rfl
+      · exact ih _ h1
+
+/-- Status bookkeeping of `collect`: without a panic, the status is non-zero exactly when it
+    was already or some visit failed. -/
+theorem collect_status (vs : List (Entry × Visit)) (o : Out)
+    (hp : (collect vs o).panicked = false) :
+    (collect vs o).status ≠ 0 ↔ (o.status ≠ 0 ∨ ∃ ev ∈ vs, visitFails ev.2 = true) := by
+  induction vs generalizing o with
+  | nil => simp [collect]
+  | cons ev rest ih =>
+    obtain ⟨e, v⟩ := ev
+    cases v with
+    | panic => simp [collect] at hp
+    | skip =>
+      simp only [collect] at hp ⊢
+      rw [ih o hp]; simp [visitFails]
+    | skipDir =>
+      simp only [collect] at hp ⊢
+      rw [ih o hp]; simp [visitFails]
+    | error m =>
+      simp only [collect] at hp ⊢
+      rw [ih _ hp]; simp [visitFails]
+    | step s =>
+      simp only [collect] at hp ⊢
+      by_cases hsp : s.panicked = true
+      · simp [hsp] at hp
+      · simp only [hsp, Bool.false_eq_true, ↓reduceIte] at hp ⊢
+        rw [ih _ hp]
+        by_cases hf : s.fail = true <;> simp [visitFails, hf]
+
+/-! ## -w then -l -/
+
+theorem fileLang_lFlags (f : Flags) (p s : Bytes) : fileLang (lFlags f) p s = fileLang f p s := rfl
+
+theorem resolveOpts_lFlags (f : Flags) (e : Entry) (src : Bytes) (l : Lang) :
+    resolveOpts (lFlags f) { e with src := src } l = resolveOpts f e l := rfl
+
+theorem visitDecision_lFlags (f : Flags) (e : Entry) (src : Bytes) :
+    visitDecision (lFlags f) { e with src := src } = visitDecision f e := rfl
+
+theorem formatBytes_write (F : Fmt) (D : Dif) (f : Flags) (e : Entry) (path src : Bytes) (l : Lang) (r : Bytes)
+    (h : (formatBytes F D f e path src l).write = some r) :
+    ∃ o b, resolveOpts f e l = some (o, b) ∧ F o path src = .ok r ∧ src ≠ r := by
+  unfold formatBytes at h
+  cases hro : resolveOpts f e l with
+  | none => simp [hro] at h
+  | some ob =>
+    obtain ⟨o, b⟩ := ob
+    simp only [hro] at h
+    cases hF : F o path src with
+    | unknown => simp [hF] at h
+    | err m => simp [hF] at h
+    | langErr m => simp [hF] at h
+    | ok res =>
+      simp only [hF] at h
+      obtain ⟨h1, h2, _⟩ := outcome_write _ _ _ _ _ _ _ _ _ h
+      subst h1
+      exact ⟨o, b, rfl, hF, h2⟩
+
+/-- `formatBytes` on bytes the formatter maps to themselves lists nothing. -/
+theorem formatBytes_fixed (F : Fmt) (D : Dif) (f : Flags) (e : Entry) (path src : Bytes) (l : Lang)
+    (o : Opts) (b : Bool) (hro : resolveOpts f e l = some (o, b)) (hF : F o path src = .ok src) :
+    (formatBytes F D f e path src l).listed = false := by
+  unfold formatBytes
+  simp only [hro, hF]
+  exact outcome_same _ _ _ _ _ _ _
+
+/-- Nothing is listed when nothing differs or an error is reported. -/
+theorem formatBytes_listed (F : Fmt) (D : Dif) (f : Flags) (e : Entry) (path src : Bytes) (l : Lang)
+    (h : (formatBytes F D f e path src l).listed = true) :
+    ∃ o b r, resolveOpts f e l = some (o, b) ∧ F o path src = .ok r ∧ r ≠ src := by
+  unfold formatBytes at h
+  cases hro : resolveOpts f e l with
+  | none => simp [hro] at h
+  | some ob =>
+    obtain ⟨o, b⟩ := ob
+    simp only [hro] at h
+    cases hF : F o path src with
+    | unknown => simp [hF] at h
+    | err m => simp [hF] at h
+    | langErr m => simp [hF] at h
+    | ok res =>
+      simp only [hF] at h
+      exact ⟨o, b, res, rfl, hF, ((outcome_listed _ _ _ _ _ _ _ _).mp h).2⟩
+
+theorem formatPath_w_then_l (F : Fmt) (D : Dif) (idem : Idempotent F) (f : Flags) (e : Entry) (cs : Bool)
+    (hreg : e.kind = .reg) (hw : f.write = true)
+    (stable : ∀ r, (formatPath F D f e cs).write = some r →
+        fileLang f e.path r = fileLang f e.path e.src) :
+    (formatPath F D (lFlags f)
+        { e with src := contentAfter (formatPath F D f e cs) e.src } cs).listed = false := by
+  -- was anything written?
+  cases hwr : (formatPath F D f e cs).write with
+  | some r =>
+    have hst := stable r hwr
+    -- the first run went through formatBytes and wrote the formatter's output
+    have h1 : ∃ o b, resolveOpts f e (fileLang f e.path e.src) = some (o, b) ∧
+        F o e.path e.src = .ok r := by
+      unfold formatPath at hwr
+      simp only at hwr
+      split at hwr
+      · simp at hwr
+      · split at hwr
+        · simp at hwr
+        · split at hwr
+          · simp at hwr
+          · simp at hwr
+          · obtain ⟨o, b, h1, h2, _⟩ := formatBytes_write _ _ _ _ _ _ _ _ hwr
+            exact ⟨o, b, h1, h2⟩
+    obtain ⟨o, b, hro, hF⟩ := h1
+    have hFr : F o e.path r = .ok r := idem _ _ _ _ hF
+    simp only [contentAfter, hwr, Option.getD_some]
+    unfold formatPath
+    simp only
+    split
+    · rfl
+    · split
+      · rfl
+      · split
+        · rfl
+        · rfl
+        · rw [fileLang_lFlags, hst]
+          exact formatBytes_fixed F D (lFlags f) _ e.path r _ o b
+            (by rw [resolveOpts_lFlags]; exact hro) hFr
+  | none =>
+    -- nothing written: the file is unchanged, and the second run sees what the first one saw
+    simp only [contentAfter, hwr, Option.getD_none]
+    apply Bool.eq_false_iff.mpr
+    intro hl
+    -- if the second run lists the file, the formatter's result differs, so the first run wrote it
+    have h2 : ∃ o b r, resolveOpts f e (fileLang f e.path e.src) = some (o, b) ∧
+        F o e.path e.src = .ok r ∧ r ≠ e.src ∧ f.find = .off ∧
+        (formatPath F D f e cs) = formatBytes F D f e e.path e.src (fileLang f e.path e.src) := by
+      unfold formatPath at hl
+      simp only at hl
+      split at hl
+      · simp at hl
+      · rename_i hA
+        split at hl
+        · simp at hl
+        · rename_i hB
+          have hfind : (lFlags f).find = f.find := rfl
+          split at hl
+          · simp at hl
+          · simp at hl
+          · rename_i hC
+            rw [hfind] at hC
+            obtain ⟨o, b, r, g1, g2, g3⟩ := formatBytes_listed _ _ _ _ _ _ _ hl
+            refine ⟨o, b, r, g1, g2, g3, hC, ?_⟩
+            unfold formatPath
+            simp only [hA, hB, hC]
+            simp
+    obtain ⟨o, b, r, g1, g2, g3, g4, g5⟩ := h2
+    rw [g5] at hwr
+    unfold formatBytes at hwr
+    simp only [g1, g2] at hwr
+    unfold outcome at hwr
+    have hne : e.src ≠ r := fun h => g3 h.symm
+    simp [hne, hw, hreg] at hwr
+    split at hwr <;> simp at hwr
+
+/-! ## language selection -/
+
+theorem matchName_mem (s : Bytes) (ns : List Bytes) : matchName s ns = [] ∨ matchName s ns ∈ ns := by
+  induction ns with
+  | nil => left; rfl
+  | cons n rest ih =>
+    unfold matchName
+    cases stripLit s n with
+    | none =>
+      simp only
+      rcases ih with h | h
+      · left; exact h
+      · right; exact List.mem_cons_of_mem _ h
+    | some r =>
+      simp only
+      cases r with
+      | nil => right; exact List.mem_cons_self
+      | cons c _ =>
+        simp only
+        split
+        · right; exact List.mem_cons_self
+        · rcases ih with h | h
+          · left; exact h
+          · right; exact List.mem_cons_of_mem _ h
+
+theorem shebang_mem (bs : Bytes) : shebang bs = [] ∨ shebang bs ∈ shellNames := by
+  unfold shebang
+  split
+  · left; rfl
+  · split
+    · left; rfl
+    · simp only
+      split
+      · left; rfl
+      · exact matchName_mem _ _
+
+theorem langFromShebang_ne_auto (hd : Bytes) : langFromShebang hd ≠ .auto := by
+  unfold langFromShebang
+  rcases shebang_mem hd with h | h
+  · rw [h]; decide
+  · have : ∀ n ∈ shellNames, (langOfName n).getD .bash ≠ .auto := by decide
+    exact this _ h
+
+theorem fileLang_ne_auto (f : Flags) (p s : Bytes) : fileLang f p s ≠ .auto := by
+  unfold fileLang
+  simp only
+  split
+  · rename_i h; simpa using h
+  · split
+    · rename_i h; simpa using h
+    · exact langFromShebang_ne_auto _
+
+theorem stdinLang_ne_auto (f : Flags) (n s : Bytes) : stdinLang f n s ≠ .auto := by
+  unfold stdinLang
+  simp only
+  split
+  · rename_i h; simpa using h
+  · split
+    · rename_i h; simpa using h
+    · exact langFromShebang_ne_auto _
+
+theorem headOf_short (s : Bytes) (h : s.length ≤ 32) : headOf s = s := by
+  unfold headOf; exact List.take_of_length_le h
+
+theorem stdinLang_eq_fileLang_short (f : Flags) (n s : Bytes) (h : s.length ≤ 32) :
+    stdinLang f n s = fileLang f n s := by
+  unfold stdinLang fileLang; rw [headOf_short s h]
+
+theorem stdinLang_eq_fileLang_ln (f : Flags) (n p s : Bytes) (h : lnVal f ≠ .auto) :
+    stdinLang f n s = lnVal f ∧ fileLang f p s = lnVal f := by
+  unfold stdinLang fileLang; simp [h]
+
+theorem stdinLang_eq_fileLang_name (f : Flags) (n s : Bytes) (h : langFromFilename n ≠ .auto) :
+    stdinLang f n s = fileLang f n s := by
+  unfold stdinLang fileLang; simp [h]
+
+/-! ## options -/
+
+theorem propsOptions_none_iff (l : Lang) (p : Props) (hl : l ≠ .auto) :
+    propsOptions l p = none ↔ langOfName (pget p (asc "shell_variant")) = some .auto := by
+  unfold propsOptions
+  cases h : langOfName (pget p (asc "shell_variant")) with
+  | none => simp [hl]
+  | some v => cases v <;> simp
+
+theorem langOfName_auto (s : Bytes) : langOfName s = some .auto ↔ s = asc "auto" := by
+  unfold langOfName
+  constructor
+  · intro h
+    repeat' split at h
+    all_goals first | (simp at h; done) | assumption
+  · intro h; subst h; decide
+
+theorem resolveOpts_flags (f : Flags) (e : Entry) (l : Lang) (h : useEC f = false) :
+    resolveOpts f e l = some (optsOfFlags f l, false) := by
+  unfold resolveOpts; simp [h]
+
+/-! ## the diff model -/
+
+theorem commonPrefix_le (a b : List Bytes) : commonPrefix a b ≤ a.length := by
+  induction a generalizing b with
+  | nil => simp [commonPrefix]
+  | cons x xs ih =>
+    cases b with
+    | nil => simp [commonPrefix]
+    | cons y ys =>
+      simp only [commonPrefix]
+      split
+      · simp only [List.length_cons]; exact Nat.succ_le_succ (ih ys)
+      · exact Nat.zero_le _
+
+theorem commonPrefix_take (a b : List Bytes) :
+    a.take (commonPrefix a b) = b.take (commonPrefix a b) := by
+  induction a generalizing b with
+  | nil => simp [commonPrefix]
+  | cons x xs ih =>
+    cases b with
+    | nil => simp [commonPrefix]
+    | cons y ys =>
+      simp only [commonPrefix]
+      split
+      · rename_i h; subst h
+        simp only [List.take_succ_cons]
+        rw [ih ys]
+      · simp
+
+theorem simpleDiff_law (a b : List Bytes) : applyScript (simpleDiff a b) a = some b := by
+  unfold simpleDiff applyScript
+  by_cases h : a = b
+  · subst h; simp [applyFrom]
+  · simp only [h, ↓reduceIte]
+    simp only [applyFrom, Nat.not_lt_zero, ↓reduceIte, Nat.sub_zero]
+    have hle := commonPrefix_le a b
+    have h1 : ¬ a.length < commonPrefix a b := Nat.not_lt.mpr hle
+    simp only [h1, ↓reduceIte, List.length_drop]
+    have h2 : List.take (a.length - commonPrefix a b) (List.drop (commonPrefix a b) a)
+        = List.drop (commonPrefix a b) a := by
+      apply List.take_of_length_le; simp
+    simp only [h2, ↓reduceIte]
+    have h3 : List.drop (a.length - commonPrefix a b) (List.drop (commonPrefix a b) a) = [] := by
+      apply List.drop_of_length_le; simp
+    simp only [h3, List.append_nil]
+    rw [commonPrefix_take a b, List.take_append_drop]
+
 end ShVerif.C36
